@@ -4,7 +4,7 @@
     Classes are decidable predicates on the encoder's OUTPUT. *)
 From Coq Require Import ZArith List Bool Lia Arith PeanoNat.
 From Draco Require Import Model.CornerTable Model.EbEncoder Proofs.CornerTable_proofs Proofs.EbEncoder_proofs.
-From Draco Require Import Proofs.EbSimDec_proofs Proofs.EbSimEnc_proofs Model.EbTrace Proofs.EbTrace_proofs.
+From Draco Require Import Proofs.EbSimDec_proofs Proofs.EbSimS_proofs Proofs.EbSimLoop_proofs Proofs.EbSimEnc_proofs Model.EbTrace Proofs.EbTrace_proofs.
 From Draco Require Model.Edgebreaker.
 Import ListNotations.
 Module D := Draco.Model.Edgebreaker.
@@ -212,7 +212,7 @@ Proof.
   - left. repeat split; auto; apply NV; auto.
   - right. left. repeat split; auto; apply NV; auto.
   - right. right. left. repeat split; auto; apply NV; auto.
-  - right. right. right. split; auto. split; auto. split; auto. split; [apply NV; auto|].
+  - right. right. right. left. split; auto. split; auto. split; auto. split; [apply NV; auto|].
     intros x Hx Nx Vx. unfold eco in Vx. cbn [rot] in Vx. destruct (D4 x Hx Nx Vx) as (R1 & R2 & R3). split; auto. split; auto.
     intros Ne. unfold eco in Ne. cbn [rot] in Ne.
     assert (Hf : x / 3 < nf) by (apply Nat.div_lt_upper_bound; lia).
@@ -245,8 +245,7 @@ Proof.
   rewrite (Ev NS).
   assert (Rq : forall j, j < length (o_pcc o) -> nth j (o_pcc o) 0 < 3 * nf /\ is_degenerated c2v (nth j (o_pcc o) 0 / 3) = false).
   { intros j Hj. rewrite Forall_forall in Rng. apply Rng. apply nth_In. auto. }
-  apply (dec_roundtrip_noS c2v opp nf Hlen OK (o_pcc o)); auto.
-  - lia.
+  apply (dec_roundtrip_noS c2v opp nf Hlen OK (o_pcc o) Rq ND (3 * F)%Z maxv rm (rev (o_syms o)) eq_refl ltac:(lia) Hm FAN); auto.
   - intros j Hj. destruct (nth_error (rev (o_syms o)) j) as [y|] eqn:Ey; [|apply nth_error_None in Ey; lia].
     apply (efact_script c2v opp nf _ _ j y); auto; try lia.
     rewrite forallb_forall in Cs. apply Cs. apply in_rev. eapply nth_error_In; eauto.
@@ -335,14 +334,17 @@ Proof.
   split; auto.
   assert (Rq : forall j, j < length (o_pcc o) -> nth j (o_pcc o) 0 < 3 * nf /\ is_degenerated c2v (nth j (o_pcc o) 0 / 3) = false).
   { intros j Hj. rewrite Forall_forall in Rng. apply Rng. apply nth_In. auto. }
-  destruct (sym_loop_sim c2v opp nf Hlen OK (o_pcc o) Rq ND NC maxv rm (rev (o_syms o)) eq_refl) with (k := ns - i) as (d & Ed & HS & HW & HF & Hnv & Hev & Hinv & Hst).
-  - rewrite rev_length. fold ns. lia.
-  - auto.
+  assert (HYQ : length (rev (o_syms o)) <= length (o_pcc o)) by (rewrite rev_length; fold ns; lia).
+  destruct (sym_loop_sim c2v opp nf Hlen OK (o_pcc o) Rq ND NC maxv rm (rev (o_syms o)) eq_refl HYQ Hm FAN) with (k := ns - i) as (d & Ed & HS & HW & HF & Hnv & Hev & (Hspl & Hinv) & Hst).
   - rewrite rev_length. fold ns. lia.
   - intros j Hj. destruct (nth_error (rev (o_syms o)) j) as [y|] eqn:Ey; [|apply nth_error_None in Ey; rewrite rev_length in Ey; fold ns in Ey; lia].
     apply (efact_script c2v opp nf _ _ j y); auto; try (rewrite rev_length; fold ns; lia).
     rewrite forallb_forall in Cs. apply Cs. apply in_rev. eapply nth_error_In; eauto.
-  - exists d. rewrite rev_length in Ed. fold ns in Ed. split; auto. unfold sim2. rewrite Li. fold ns.
+  - assert (Hinv0 : D.invalid d = []).
+    { apply Hinv. right. intro X. assert (X' : In 1%Z (rev (o_syms o))).
+      { rewrite <- (firstn_skipn (ns - i) (rev (o_syms o))). apply in_or_app. auto. }
+      apply in_rev in X'. rewrite forallb_forall in Cs. specialize (Cs _ X'). discriminate. }
+    exists d. rewrite rev_length in Ed. fold ns in Ed. split; auto. unfold sim2. rewrite Li. fold ns.
     split; auto. split. { rewrite C2. f_equal. lia. }
     split. { split; auto. replace (ns - i - 1) with (ns - i - 1) by lia. apply tops_head'. rewrite rev_length. fold ns. lia. }
     auto.
